@@ -16,6 +16,10 @@ pub struct ElfSpec {
     pub data_size: u64,
     pub bss_size: u64,
     pub debug_sections: bool,
+    /// kernel modules only: relocation sections exist and the section name table is tail-merged the
+    /// way assemblers and linkers write it (`.text` is the tail of `.rela.text`, and
+    /// `.gnu.linkonce.this_module` the tail of `.rela.gnu.linkonce.this_module`)
+    pub merged_names: bool,
 }
 
 struct W {
@@ -197,12 +201,36 @@ pub fn build_lkm(s: &ElfSpec) -> (Vec<u8>, u64, u64, u64) {
     if s.debug_sections {
         secs.push(Sec { name: ".debug_info", ty: 1, flags: 0, size: 0x20, align: 1, data: vec![0x11; 0x20] });
     }
+    if s.merged_names {
+        for name in [".rela.text", ".rela.gnu.linkonce.this_module"] {
+            secs.push(Sec { name, ty: 4, flags: 0x40, size: 0, align: 8, data: vec![] });
+        }
+    }
     let mut shstr = vec![0u8];
     let mut name_off = Vec::new();
-    for sec in &secs {
-        name_off.push(shstr.len() as u32);
-        shstr.extend_from_slice(sec.name.as_bytes());
-        shstr.push(0);
+    if s.merged_names {
+        // longest names first, every name that is the tail of one already written points into it
+        let mut order: Vec<usize> = (0..secs.len()).collect();
+        order.sort_by_key(|i| std::cmp::Reverse(secs[*i].name.len()));
+        name_off = vec![0u32; secs.len()];
+        let mut written: Vec<(&str, u32)> = Vec::new();
+        for i in order {
+            let name = secs[i].name;
+            if let Some((long, off)) = written.iter().find(|(long, _)| long.ends_with(name)) {
+                name_off[i] = off + (long.len() - name.len()) as u32;
+            } else {
+                name_off[i] = shstr.len() as u32;
+                written.push((name, shstr.len() as u32));
+                shstr.extend_from_slice(name.as_bytes());
+                shstr.push(0);
+            }
+        }
+    } else {
+        for sec in &secs {
+            name_off.push(shstr.len() as u32);
+            shstr.extend_from_slice(sec.name.as_bytes());
+            shstr.push(0);
+        }
     }
     let shstr_name = shstr.len() as u32;
     shstr.extend_from_slice(b".shstrtab\0");
